@@ -31,7 +31,8 @@ KNOWN_ID = "C02:merged-gradient-scaled"
 RULE = ("seeded random ensembles: 1..5 realizations, 1..4 variables with random masks (incl. a single free variable), "
         "1..6 perturbations, 1..3 objectives and 0..2 constraints, mean/stddev estimators configured through estimator lists of "
         "different order, with duplicates, unused entries, 'default' spelling and omitted index arrays, dyadic "
-        "slopes/offsets/weights (weights with zeros), NaN in unperturbed and perturbed slots (any column), "
+        "slopes/offsets/weights (weights with zeros; a stream with stddev estimators whose offsets 2^20..2^24 are huge compared "
+        "with the O(1) realization-to-realization spread, and its mirror image with all values scaled by 2^-14..2^-20), NaN in unperturbed and perturbed slots (any column), "
         "perturbation_min_success / realization_min_success thresholds (also left to their defaults), magnitudes (scalar and "
         "per variable, absolute and relative), finite bounds that keep or clip the design and partly infinite bounds with every "
         "boundary type, optional VariableScaler, zero to two realization filters (sort/cvar on objectives or constraints) mapped "
@@ -63,7 +64,7 @@ ASSUMPTIONS = [
 ]
 TRUSTED = [
     "LAPACK SVD inside _invert_linear_equations is an oracle: the model solves the same least-squares problem exactly (certified normal equations) and the two are compared numerically on every case",
-    "float rounding: exact-rational model + tolerance |x-m| <= 1e-12*S + 1e-9*|m| with S = largest input magnitude / smallest singular value",
+    "float rounding: exact-rational model + tolerance |x-m| <= 1e-12*S + 1e-9*|m| with S = largest input magnitude / smallest singular value; stddev rows compare sigma^2 and sigma*grad sigma with S*(1+sigma) in place of S (not S^2: huge offsets with a small spread do not widen the comparison)",
     "the scripted optimizer plug-in and the injected sampler plug-in of the harness (they only forward the generated request sequence / design)",
 ]
 
@@ -235,7 +236,7 @@ def _gen_estimators(rng, stds, no, merge):
 
 
 def gen_ens(rng, *, sampler="inject", merge=None, affine=True, edge=False, small=False, simple=False, request=None,
-            std_with_merge=False):
+            std_with_merge=False, values=None):
     V = rng.choice([1, 2, 2, 3] if small else [1, 2, 2, 3, 3, 4])
     R = rng.choice([1, 2, 2, 3] if small else [1, 2, 3, 3, 4, 5])
     mask = None
@@ -275,6 +276,21 @@ def gen_ens(rng, *, sampler="inject", merge=None, affine=True, edge=False, small
     if merge_mode in ("identical", "identical-unequal") or (not merge and rng.random() < 0.05):
         slopes = [slopes[0] for _ in range(R)]
     offsets = [[_dy(rng, -3, 3, den) for _ in range(nf)] for _ in range(R)]
+    if values is None and affine and rng.random() < 0.04:
+        values = rng.choice(["large-offsets", "tiny"])
+    if values is not None and not merge and R >= 2 and not any(stds):
+        stds[rng.randrange(nf)] = True        # these regimes are about the stddev estimator's "no spread" shortcut
+    if values == "large-offsets":
+        # offsets that are huge compared with the realization-to-realization spread (all values stay exact floats)
+        for j in range(nf):
+            base = rng.choice([-1.0, 1.0]) * rng.choice([1.0, 1.25, 1.5, 1.75]) * 2.0 ** rng.choice([20, 21, 22, 23, 24])
+            for r in range(R):
+                offsets[r][j] += base
+    elif values == "tiny":
+        # everything small in absolute terms: an absolute "is the spread zero" test must not fire
+        k = 2.0 ** -rng.choice([14, 17, 20])
+        slopes = [[[v * k for v in row] for row in fr] for fr in slopes]
+        offsets = [[v * k for v in row] for row in offsets]
     quad = None
     if not affine:
         quad = [[rng.choice([-1.0, -0.5, 0.25, 0.5, 1.0]) for _ in range(nf)] for _ in range(R)]
@@ -347,7 +363,8 @@ def gen_ens(rng, *, sampler="inject", merge=None, affine=True, edge=False, small
             "ow": ow, "stds": stds, "slopes": slopes, "offsets": offsets, "quad": quad, "pmin": pmin, "rmin": rmin,
             "merge": bool(merge), "merge_mode": merge_mode, "sampler": samp, "magnitudes": magnitudes, "bounds": bounds,
             "boundary": boundary, "ptypes": ptypes, "pfail": pfail, "rfail": rfail, "rfail_alt": rfail_alt, "failcol": failcol,
-            "scaler": scaler, "filter": filt, "estimators": _gen_estimators(rng, stds, no, bool(merge))}
+            "scaler": scaler, "filter": filt, "estimators": _gen_estimators(rng, stds, no, bool(merge)),
+            "values": values or "O(1)"}
     case.update(_gen_request(rng, V, free_idx, favour_split=filt is not None, request=request))
     return case
 
@@ -381,7 +398,8 @@ def gen_cases(tier, rng):
     n_merge = 120 if quick else 1400
     n_edge = 60 if quick else 800
     n_ls = 200 if quick else 2000
-    plan = (["inject"] * n_inject + ["builtin"] * n_builtin + ["quad"] * n_quad + ["merge"] * n_merge
+    n_regime = 70 if quick else 800
+    plan = (["regime"] * n_regime + ["inject"] * n_inject + ["builtin"] * n_builtin + ["quad"] * n_quad + ["merge"] * n_merge
             + ["edge"] * n_edge + ["ls"] * n_ls)
     rng.shuffle(plan)          # spreads the expensive full-precision cases evenly over the shards
     k_builtin = 0
@@ -391,6 +409,8 @@ def gen_cases(tier, rng):
         elif kind == "builtin":
             k_builtin += 1
             yield gen_ens(rng, sampler=METHODS[k_builtin % len(METHODS)], small=True)
+        elif kind == "regime":
+            yield gen_ens(rng, values=rng.choice(["large-offsets", "large-offsets", "tiny"]), small=rng.random() < 0.5)
         elif kind == "quad":
             yield gen_ens(rng, affine=False)
         elif kind == "merge":
@@ -1051,14 +1071,23 @@ def _exact_rows(case, obs, ignore_bound=False):
             m = fj @ w
             var = N / (N - 1) * (((fj - m) ** 2) @ w)
             sd = math.sqrt(max(var, 0.0))
-            if sd > 1e-6:
+            if sd > 1e-7:
                 exact[free] = (N / (N - 1) / sd * ((w * fj) @ Aopt - m * (w @ Aopt)))[free]
-                rows.append((j, "std", exact, N, None))
+                rows.append((j, "std", exact, N, sd))         # fifth entry of a stddev row: sigma
             elif sd < 1e-12:
-                rows.append((j, "std", exact, N, None))       # sigma == 0: the code returns zeros
+                rows.append((j, "std", exact, N, 0.0))        # sigma == 0: the code returns zeros
             else:
                 rows.append((j, "skip", None, N, None))
     return rows, failed
+
+
+def _tol_scale(case, obs):
+    """atol = 1e-7 * this: the largest slope in optimizer coordinates (no floor of 1: tiny ensembles are judged relative to
+    their own size) plus a rounding allowance 1e-6 * (largest value) / (smallest singular value) -- the cancellation in
+    perturbed - unperturbed values costs about 2e-16 * (largest value) / (perturbation size)"""
+    import numpy as np
+    slope = float(np.abs(np.array(case["slopes"])).max()) * (max(case["scaler"]["scales"]) if case["scaler"] else 1.0)
+    return slope + 1e-6 * float(_scale(case, obs))
 
 
 def _same(a, b):
@@ -1136,7 +1165,7 @@ def oracle(case, obs):
         return {"clause": "gradient_shape", "detail": [list(G.shape), list(wg.shape)]}
     if np.any(G[:, ~free] != 0.0) or np.any(wg[~free] != 0.0):
         return {"clause": "fixed_entries_exactly_zero", "detail": {"gradients": G.tolist(), "weighted": wg.tolist(), "mask": _free(case)}}
-    scale = max(1.0, float(np.abs(np.array(case["slopes"])).max()) * (max(case["scaler"]["scales"]) if case["scaler"] else 1.0))
+    scale = _tol_scale(case, obs)
     want = np.array(obs["cfg_ow"], dtype=np.float64) @ G[:case["no"]]
     if not np.allclose(wg, want, rtol=1e-7, atol=1e-9 * scale, equal_nan=True):
         return {"clause": "weighted_objective_gradient", "detail": {"got": wg.tolist(), "want": want.tolist()}}
@@ -1150,10 +1179,17 @@ def oracle(case, obs):
     rows, failed = _exact_rows(case, obs)
     if [bool(v) for v in failed] != obs["failed"]:
         return {"clause": "failed_realization_flags", "detail": {"got": obs["failed"], "want": [bool(v) for v in failed]}}
-    for j, kind, exact, count, _ in rows:
+    slope = float(np.abs(np.array(case["slopes"])).max()) * (max(case["scaler"]["scales"]) if case["scaler"] else 1.0)
+    for j, kind, exact, count, extra in rows:
         if exact is None:
             continue
-        if not np.allclose(G[j], exact, rtol=1e-6, atol=1e-7 * scale):
+        if kind == "std" and extra > 0:
+            # like the Coq checker: sigma * grad sigma is what is computed without division; its rounding error grows with
+            # the largest value, not with 1 / sigma
+            ok = np.allclose(extra * G[j], extra * exact, rtol=1e-6, atol=1e-7 * slope * extra + 1e-13 * float(_scale(case, obs)))
+        else:
+            ok = np.allclose(G[j], exact, rtol=1e-6, atol=1e-7 * scale)
+        if not ok:
             clause = {"mean": "mean_affine_exact", "std": "sd_chain_rule_exact", "merged": "merged_affine_exact"}[kind]
             return {"clause": clause, "detail": {"function": j, "got": G[j].tolist(), "want": exact.tolist(),
                                                  "contributing_realizations": count}}
@@ -1171,7 +1207,7 @@ def known_signature(case, obs, violation):
         return None
     G = np.array(obs["grad"], dtype=np.float64)
     rows, _ = _exact_rows(case, obs, ignore_bound=True)
-    scale = max(1.0, float(np.abs(np.array(case["slopes"])).max()) * (max(case["scaler"]["scales"]) if case["scaler"] else 1.0))
+    scale = _tol_scale(case, obs)
     seen = False
     for j, kind, exact, count, onesided in rows:
         if kind == "skip":
@@ -1222,7 +1258,7 @@ def features(case, obs):
            "filter": "none" if f is None else "+".join(sorted(e["method"] for e in f["filters"])),
            "scaler": case["scaler"] is not None,
            "bounds": _bounds_kind(case), "relative_magnitudes": case.get("ptypes") is not None,
-           "zero_weight": any(w == 0 for w in case["weights"]),
+           "zero_weight": any(w == 0 for w in case["weights"]), "values": case.get("values", "O(1)"),
            "estimator_list": "legacy" if est is None else ("default" if est["layout"] is None else ",".join(est["layout"])),
            "request": case.get("request", "functions-then-gradient" if case.get("split") else "combined"),
            "issued_through": via, "caller_buffer_reused": reuse, "answered": obs.get("path", "-"),
@@ -1357,7 +1393,8 @@ MANIFEST = {
         "renormalisation, mean and stddev estimators, restriction to free variables and re-expansion with zeros, the variable "
         "scaler's map and the matrix handed to the optimizer), for all sizes, masks, weights and failure patterns: any vector "
         "passing the normal-equation test equals the generating slope under full column rank, minimises the residual sum of "
-        "squares for arbitrary data and is the unique minimiser under full rank; on affine ensembles the per-realization "
+        "squares for arbitrary data and is the unique minimiser under full rank, and the solver returns a vector exactly for "
+        "well-shaped data of full (joint) column rank; on affine ensembles the per-realization "
         "estimate of every function equals the normalised-weight combination of the slopes, the merged estimate does so for "
         "shared perturbations or identical realizations (for identical realizations already when only the stacked system has "
         "full rank), the stddev gradient equals the chain-rule expression, which is proved to be the derivative of the variance "
@@ -1375,12 +1412,15 @@ MANIFEST = {
         "truncation decision, by the no-truncation theorem); NumPy singular values decide whether a case's values are "
         "compared (through the model's own truncation rule) and whether it counts as non-trivial; float rounding (exact "
         "rationals + tolerance); the Python driver, the injected sampler and scripted optimizer plug-ins and the table-driven "
-        "evaluator; the Coq kernel/VM and the translator.  The model's solver is an untrusted Cramer proposer whose result is "
-        "accepted only if it satisfies the normal equations exactly; proofs use only the acceptance test, so completeness of "
-        "the proposer (that it finds a solution whenever the rank is full) is tested on every compared case (a model that "
-        "answers 'singular' there fails the case), not proved; the exactness theorems are therefore stated for the case that "
-        "the model returns a gradient.  The link between the NumPy singular values and the rank hypothesis of the theorems is "
-        "not formalised.  Realization filters, samplers, bounds and magnitudes are not modelled here: the reported weight rows "
+        "evaluator; the Coq kernel/VM and the translator.  The model's solver is a Cramer proposer whose result is accepted "
+        "only if it satisfies the normal equations exactly; it is proved complete (Proofs/LstsqComplete.v: it returns a "
+        "vector exactly when the data is well shaped and the (stacked, positively weighted) system has full column rank, for "
+        "every n), so the exactness theorems also hold in their total form (C02_mean_affine_total, C02_merged_total, "
+        "C02_never_singular_on_full_rank_ensembles); a compared case on which the model answers 'singular' still fails the "
+        "check as a redundant safeguard.  Rank and singular values: the 1 % clause is proved to imply full column rank and an "
+        "untruncated, unique least-squares answer GIVEN the Rayleigh characterisation of the smallest squared singular value "
+        "(s_min |x|^2 <= |A x|^2 for all x); that the number NumPy reports has this property remains an oracle assumption "
+        "tested by the per-run correspondence.  Realization filters, samplers, bounds and magnitudes are not modelled here: the reported weight rows "
         "and reported perturbed variables are inputs (the latter are checked against the rows the evaluator received).  The "
         "request sequence itself (cache hits and misses) is not modelled: the judged request must be exact whatever was asked "
         "before.  Merged estimation is modelled as the property states it (weighted least squares); the current code applies "
